@@ -136,4 +136,32 @@ pub(crate) mod shares {
             kani::cover!(true);
         }
     }
+
+    harness! {
+        #[kani::unwind(19)]
+        fn x08_std_array_arithmetic_is_lanewise() {
+            // vectorised field arithmetic (StdArray<Fp32BitPrime, 16>): every lane equals the plain field operation
+            use crate::secret_sharing::StdArray;
+            type Arr = StdArray<Fp32BitPrime, 16>;
+            let ra: [u32; 16] = kani::any();
+            let rb: [u32; 16] = kani::any();
+            let k: usize = kani::any();
+            kani::assume(k < 16);
+            kani::assume(u128::from(ra[k]) < P32 && u128::from(rb[k]) < P32);
+            let c: u32 = kani::any();
+            kani::assume(c < (1 << 16));
+            // lanes other than k may hold any storage word: only lane k is inspected
+            let a: Arr = unsafe { std::mem::transmute(ra) };
+            let b: Arr = unsafe { std::mem::transmute(rb) };
+            let lane = |x: Arr| -> u32 {
+                let raw: [u32; 16] = unsafe { std::mem::transmute::<Arr, [u32; 16]>(x) };
+                raw[k]
+            };
+            assert!(lane(&a + &b) == rd32(mk32(ra[k]) + mk32(rb[k])), "lane-wise add");
+            assert!(lane(&a - &b) == rd32(mk32(ra[k]) - mk32(rb[k])), "lane-wise sub");
+            assert!(lane(-&a) == rd32(-mk32(ra[k])), "lane-wise neg");
+            assert!(lane(&a * mk32(c)) == rd32(mk32(ra[k]) * mk32(c)), "lane-wise scalar mul");
+            kani::cover!(true);
+        }
+    }
 }
